@@ -550,7 +550,16 @@ pub fn check(opts: &CheckOpts) -> i32 {
     // (every worker that meets a hang is killed with it, so there can be one per worker: the first two are minimised,
     // 20 s to 3 min each; the others are reported as generated)
     let mut minimised_resource = 0usize;
+    let mut kept_resource = 0usize;
     for (run, class, detail) in resource_violations {
+        if known.matches(prop, &class).is_none() {
+            kept_resource += 1;
+            if kept_resource > 3 {
+                // confirming a hang costs a full watchdog period per replay: three are enough to report
+                *agg.counters.entry("further_hang_or_crash_runs_not_replayed".into()).or_insert(0) += 1;
+                continue;
+            }
+        }
         let case = props::gen_case(prop, opts.seed, run, &opts.tier);
         let mut was_minimised = false;
         let case = if known.matches(prop, &class).is_none() && minimised_resource < 2 {
